@@ -114,6 +114,10 @@ Section WithBindings.
     end.
 End WithBindings.
 
+Fixpoint insert_nat (n : nat) (l : list nat) : list nat :=
+  match l with [] => [n] | x :: r => if Nat.ltb n x then n :: l else if Nat.eqb n x then l else x :: insert_nat n r end.
+Definition nodup_sorted (l : list nat) : list nat := fold_right insert_nat [] l.
+
 Definition vdiag (d : diag) : val :=
   VO [("cls", VS (d_cls d)); ("code", VN (d_code d)); ("file", VS (relfile (d_file d))); ("line", VN (d_line d)); ("col", VN (d_col d))].
 
@@ -129,6 +133,8 @@ Definition voutcome (r : res parsed) : val :=
       let s := pr_state p in
       VO [("outcome", VS (if pr_ok p then "ok" else "list"));
           ("errors", VL (map vdiag (s_errors s)));
+          ("error_codes", VL (map VN (nodup_sorted (map d_code (s_errors s)))));
+          ("def_names", vstrs (map (fun d => let t := decl_tdef d in join "." (td_ns t ++ [td_name t])) (s_decls s)));
           ("defs", VL (map (vdecl (s_binds s)) (s_decls s)));
           ("refs", VL (map (vref (s_binds s)) (s_refs s)));
           ("ast", VL (map (vopt (vnode (s_binds s))) (pr_ast p)));
